@@ -246,6 +246,24 @@ func (prop) Drive(d *core.Driver) error {
 		}
 		progs = append(progs, Prog{ID: fmt.Sprintf("%s.m%d", p.ID, k), Origin: "corpus", Kind: mu.Kind, Note: mu.Desc, Src: mu.Src})
 	}
+	// keep the sweep away from the constructs of the open findings
+	scoped := map[string]int{}
+	kept := progs[:0]
+	for _, p := range progs {
+		if f := parseFile(p.Src); f != nil {
+			if d.InScope(ScopeLabelledBranchInRange) && hasLabelledBranchInRange(f) {
+				scoped[ScopeLabelledBranchInRange]++
+				continue
+			}
+			if d.InScope(ScopeRecursiveType) && hasRecursiveType(f) {
+				scoped[ScopeRecursiveType]++
+				continue
+			}
+		}
+		kept = append(kept, p)
+	}
+	progs = kept
+	d.T.Set("programs_excluded_by_finding_scope", scoped)
 	d.T.Set("programs", len(progs))
 	var cases []core.Case
 	for i := 0; i < len(progs); i += perCase {
